@@ -235,6 +235,9 @@ func (s *sched) drain() {
 	for {
 		select {
 		case m := <-s.q:
+			if m.Kind == rt.KGone && s.byGoid[m.Goid] == nil {
+				continue
+			}
 			if m.Kind != rt.KStart && s.byGoid[m.Goid] == nil {
 				foreign = append(foreign, m) // first hook of a goroutine nobody announced (timer callback)
 				continue
@@ -291,6 +294,10 @@ func (s *sched) handle(m rt.Msg) {
 	switch m.Kind {
 	case rt.KExit:
 		g.done = true
+		delete(s.byGoid, m.Goid)
+		return
+	case rt.KGone:
+		delete(s.byGoid, m.Goid)
 		return
 	case rt.KUnlock:
 		l := s.lock(m.Addr)
@@ -1119,7 +1126,13 @@ func (s *sched) internal(msg string) {
 	os.Exit(0)
 }
 
+// stopProfile is set when SIMNODE_CPUPROFILE asked for a CPU profile (debugging aid).
+var stopProfile func()
+
 func writeResult(r *Result) {
+	if stopProfile != nil {
+		stopProfile()
+	}
 	b, err := json.Marshal(r)
 	if err != nil {
 		fmt.Fprintln(os.Stderr, "simnode: marshal:", err)
@@ -1279,7 +1292,7 @@ func runCalls(t *testing.T, seg *Segment, progress *atomic.Int64) {
 		if seg.ClockNs > 0 {
 			time.Sleep(time.Duration(seg.ClockNs))
 		}
-		self := rt.Goid()
+		self := rt.RealGoid()
 		for pi, ps := range all {
 			doneCh := make(chan int, len(ps))
 			s.phaseWorkers = s.phaseWorkers[:0]
